@@ -20,6 +20,10 @@ Counted, not demanded: whether the original bytes are among the candidates (`ori
 """
 import collections
 import gc
+import json
+import os
+import subprocess
+import sys
 
 from mc import insngen as g
 from mc.runner import violation
@@ -218,9 +222,121 @@ def plan(tier, only=None):
     return g.make_plan(BOUNDS[tier], g.TARGETS, only)
 
 
+# ---------------------------------------------------------------------------------------------------------
+# history family: the assembler keeps module-level state (caches); an element is judged after other elements were
+# assembled in the same process.  For the AArch64 logical-immediate instructions the same mask VALUE is assembled in
+# the 32-bit and then the 64-bit form, and the other way round.  The family is evaluated serially in the parent,
+# before anything else touched the architecture module; a case carries every element of the family that was assembled
+# before it with the same mask value, so that a fresh process reproduces the state that matters.
+
+_HIST_OPS = (("AND", 0), ("ORR", 1), ("EOR", 2), ("ANDS", 3))
+_HIST_MASKS = [(k, sh) for k in (1, 2, 7, 8, 16, 31) for sh in (0, 1, 8, 15, 16) if k + sh <= 32]      # ones(k) << sh
+
+
+def _a64_logimm(t, opc, sf, k, sh):
+    """<op> Rd=3, Rn=7, #(ones(k) << sh) in the 32-bit (sf=0: N=0, element 32) or 64-bit (sf=1: N=1) form."""
+    n, width = (1, 64) if sf else (0, 32)
+    immr = (width - sh) % width
+    return t.pack([sf << 31 | opc << 29 | 0x24 << 23 | n << 22 | immr << 16 | (k - 1) << 10 | 7 << 5 | 3])
+
+
+def history_cases(name):
+    """[(history raws, raw)] in evaluation order."""
+    t = g.Target(name)
+    out = []
+    for idx, (k, sh) in enumerate(_HIST_MASKS):
+        seen = []                       # everything assembled so far with this mask value
+        for _nm, opc in _HIST_OPS:
+            # 32-bit then 64-bit and 64-bit then 32-bit; which order meets the untouched state alternates per mask
+            for first in ((0, 1) if idx % 2 == 0 else (1, 0)):
+                h = _a64_logimm(t, opc, first, k, sh)
+                x = _a64_logimm(t, opc, 1 - first, k, sh)
+                out.append((list(seen) + [h], x))
+                seen += [h, x]
+    return out
+
+
+def judge_with_history(name, history, raw):
+    """Assemble the history (results ignored), then judge raw as usual."""
+    t, mn = g.env(name)
+    for h in history:
+        try:
+            i = g.decode(name, h)
+            if i is not None:
+                mn.asm(i)
+        except Exception:
+            pass
+    cnt, kinds, instr = judge(name, raw)
+    vs = []
+    for kind, detail in kinds:
+        sig = "%s|%s|after-history:%s" % (name, g.base_mnemonic(name, instr.name), kind)
+        vs.append(violation(sig, "%s %s (%s) assembled after %s: %s" % (
+            name, bytes(instr.b).hex(), _txt(instr), [h.hex() for h in history[-2:]], detail),
+            {"target": name, "raw": raw, "history": list(history)}))
+    return cnt, vs
+
+
+def run_history_family(ctx):
+    """Serial, in the parent, before anything else used the assembler.  Only aarch64l: both byte orders share the
+    module state, and a case must carry everything that matters for it."""
+    from mc.runner import jsonable
+    counters = collections.Counter()
+    name = "aarch64l"
+    for history, raw in history_cases(name):
+        # the earlier entries of `history` were assembled by the earlier cases of this loop
+        cnt, vs = judge_with_history(name, history[-1:], raw)
+        counters["history_cases"] += 1
+        counters["history_assembled"] += cnt.get("assembled", 0)
+        counters["history_ok"] += 0 if vs else 1
+        for v in vs:
+            v["case"]["history"] = jsonable(history)
+            ctx.add_violations([v])
+    return dict(counters)
+
+
+def _reproduces(case, sig):
+    """Does the case yield the signature when replayed alone in a fresh process?"""
+    code = ("import sys, json\nsys.path.insert(0, %r)\nfrom mc import runner\nfrom checks import c15_asm_roundtrip as c\n"
+            "case = runner.unjson(json.load(sys.stdin))\nprint('SIGS=' + json.dumps([v['sig'] for v in c.replay(case)]))\n"
+            % os.path.dirname(os.path.dirname(os.path.abspath(__file__))))
+    p = subprocess.run([sys.executable, "-c", code], input=json.dumps(case).encode(), stdout=subprocess.PIPE,
+                       stderr=subprocess.DEVNULL, cwd=os.path.dirname(os.path.dirname(os.path.abspath(__file__))))
+    for line in p.stdout.decode(errors="replace").splitlines():
+        if line.startswith("SIGS="):
+            return sig in json.loads(line[5:])
+    return False
+
+
+def drop_unreproducible(ctx, limit=20):
+    """A violation found in a worker may depend on what that process assembled before (module-level assembler state).
+    Every violation that would be printed (the first `limit` unregistered signatures, in the runner's order) is replayed
+    alone in a fresh process first; those that do not reproduce are dropped and counted (the history family above is
+    the place where history-dependent behaviour is judged, with the history in the case)."""
+    from mc.runner import load_findings
+    known = load_findings(PROP)
+    by_sig = {}
+    for v in ctx.violations:
+        by_sig.setdefault(v["sig"], []).append(v)
+    kept = dropped = 0
+    for sig in sorted(by_sig):
+        if sig in known:
+            continue
+        if kept >= limit:
+            break
+        if _reproduces(by_sig[sig][0]["case"], sig):
+            kept += 1
+        else:
+            dropped += 1
+            ctx.violations[:] = [v for v in ctx.violations if v["sig"] != sig]
+    return dropped
+
+
 def run(ctx):
     tier = "quick" if ctx.quick else "thorough"
     shards = plan(tier)
+    g.env("aarch64l")
+    g.quiet()
+    hist = run_history_family(ctx)       # first: nothing else has used the assembler yet
     for name in g.TARGETS:               # import / warm every architecture before the pool forks
         raw = g.raw_of(name, "curated", g.curated(name)[0])
         judge(name, raw)
@@ -228,8 +344,12 @@ def run(ctx):
     gc.collect()
     gc.freeze()
     res = [r for rs in ctx.pmap(_bundle, g.bundles(shards, BOUNDS[tier]["bundles"])) for r in rs]
-    bounds = dict(BOUNDS[tier], sizes=g.plan_sizes(BOUNDS[tier], g.TARGETS))
-    return g.fold(ctx, res, bounds, nontrivial=lambda c: c.get("assembled", 0))
+    bounds = dict(BOUNDS[tier], sizes=g.plan_sizes(BOUNDS[tier], g.TARGETS),
+                  history_family={"ops": [o for o, _ in _HIST_OPS], "masks_ones_shift": _HIST_MASKS})
+    cov = g.fold(ctx, res, bounds, nontrivial=lambda c: c.get("assembled", 0))
+    cov.update(hist)
+    cov["violations_dropped_not_reproducible_alone"] = drop_unreproducible(ctx)
+    return cov
 
 
 def replay(case):
@@ -238,5 +358,9 @@ def replay(case):
         raw = bytes.fromhex(raw)
     g.env(case["target"])
     g.quiet()
+    if case.get("history"):
+        hist = [bytes.fromhex(h) if isinstance(h, str) else h for h in case["history"]]
+        _c, vs = judge_with_history(case["target"], hist, raw)
+        return vs
     _c, vs = violations_of(case["target"], raw)
     return vs
